@@ -142,9 +142,11 @@ CallVerdict ==
     IF Ev.exc # "" THEN "P:exception|" \o Ev.op
     ELSE IF Ev.err # ExpectErr THEN "P:setcookie-guard|" \o Ev.op
     ELSE IF Ev.res # ExpectRes THEN "P:readback|" \o Ev.op
-    ELSE IF CodecCall /\ LawVerdict # "ok" THEN LawVerdict
+    \* (for append_link the new map value must be the old one, ", ", and the appended link-value: a Link header that
+    \*  was rebuilt from anything else fails here, before the appended part is decoded)
     ELSE IF Ev.op \notin {"get", "typed_get"} /\ (~NoDup(Ev.after) \/ PairsMap(Ev.after) # NewModel)
          THEN "P:readback|headers-after-" \o Ev.op
+    ELSE IF CodecCall /\ LawVerdict # "ok" THEN LawVerdict
     ELSE "ok"
 
 (* ---- emission ---- *)
